@@ -2,7 +2,7 @@ SPECIFICATION GenSpec
 CONSTANTS
   Dirs <- GenDirs
   TypeEncs <- GenTypeEncs
-  Maxes <- GenMaxes
+  Maxes <- GenMaxesQuick
   Methods <- GenMethods
   Shardings <- GenShardings
   CfgSpace <- GenCfg
